@@ -76,8 +76,14 @@ def add_engine_binary(name, engine_src, reg_objs):
 def tree_dir():
     return os.path.join(BUILD, tree_hash())
 
+_scan_hash = None
+def scan_hash():
+    global _scan_hash
+    if _scan_hash is None: _scan_hash = sha(open(os.path.join(VERIF, 'tools', 'scan_repo.py'), 'rb').read())[:8]
+    return _scan_hash
+
 def gen_dir():
-    return os.path.join(tree_dir(), 'gen')
+    return os.path.join(tree_dir(), 'gen-' + scan_hash())
 
 class BuildError(Exception):
     def __init__(self, logpath, in_library, first_error):
@@ -91,7 +97,7 @@ def obj_path(o, flavour):
     if o['opt']: flags = [f for f in flags if not re.fullmatch(r'-O\d', f)] + [o['opt']]
     flags += o['defs']
     src = os.path.join(SRC, o['src'])
-    key = sha(local_deps_hash(src), ' '.join(flags), fl['cxx'], tree_hash() if o['tree'] else 'engine')[:10]
+    key = sha(local_deps_hash(src), ' '.join(flags), fl['cxx'], (tree_hash() + scan_hash()) if o['tree'] else 'engine')[:10]
     d = os.path.join(tree_dir() if o['tree'] else os.path.join(BUILD, 'engine'), flavour)
     tag = re.sub(r'[^A-Za-z0-9]+', '', ''.join(o['defs']))
     return os.path.join(d, '%s.%s.%s.o' % (os.path.splitext(o['src'])[0], tag, key)), flags
